@@ -36,6 +36,12 @@ def some(x):
 def iter_next(ex, st, r):
     """r: Ref to an iterator value. -> value | Fork"""
     it = ex.deref(st, r)
+    hops = 0
+    while isinstance(it, Ref) and hops < 4:
+        # `impl Iterator for &mut I`: forwards to the iterator behind the reference
+        r = it
+        it = ex.deref(st, r)
+        hops += 1
     if isinstance(it, Native):
         if it.tag == 'input':
             return input_next(ex, st, r, it)
@@ -786,6 +792,25 @@ def s_opt_map(ex, st, fr, text, args):
     if o.v == 'None':
         return none()
     return Multi([(s2, v if isinstance(v, PanicResult) else some(v)) for s2, v in _call_any(ex, st, f, [o.f[0]])])
+
+
+@summary(r'^(std::option::)?Option::<.*>::get_or_insert_with::<', 'Option::get_or_insert_with(f): fills a None with f(), returns a reference to the content')
+def s_opt_get_or_insert_with(ex, st, fr, text, args):
+    r, f = args
+    o = ex.deref(st, r)
+    if not isinstance(o, E):
+        raise Inconclusive('get_or_insert_with on %r' % (o,))
+    inner = Ref(r.fid, r.local, r.path + (('f', 0),))
+    if o.v == 'Some':
+        return inner
+    out = []
+    for s2, v in _call_any(ex, st, f, []):
+        if isinstance(v, PanicResult):
+            out.append((s2, v))
+            continue
+        ex.assign_ref(s2, r, some(v))
+        out.append((s2, inner))
+    return Multi(out)
 
 
 @summary(r'^(std::option::)?Option::<.*>::and_then::<', 'Option::and_then(f)')
